@@ -11,8 +11,10 @@
       finalized file was unpacked afterwards — F33);
     * `apply_snapshot_stream_from_leader`: process the stream, then `StateMachine::apply_snapshot_from_file` on the
       unpacked directory (state := snapshot, last_applied := label).
-  Chunk payloads are symbolic: `(piece index, pristine?)`; the assembled file is the list of payloads written.
-  The archive unpacks iff its first `n` payloads are the pristine pieces 0..n-1 in order (a gzip member followed by
+  Chunk payloads are symbolic: `(piece index, pristine | altered | empty)`; the assembled file is the list of payloads
+  written (an empty payload contributes no bytes). The checksum field is modelled by its length and whether its bytes
+  agree with the payload's CRC32: `validate_checksum` accepts only a 4-byte field that agrees.
+  The archive unpacks iff its first `n` non-empty payloads are the pristine pieces 0..n-1 in order (a gzip member followed by
   trailing bytes still unpacks; a truncated or altered one does not) — observed on the real code by the family.
 -/
 namespace DEngine.SnapStream
@@ -23,7 +25,14 @@ inductive MetaK where
   | label (i t : Nat)
 deriving Repr, DecidableEq
 
-abbrev Tok := Nat × Bool   -- (piece index, pristine)
+/-- What a chunk's payload is, relative to the genuine piece with that index. -/
+inductive Kind where
+  | pristine    -- the genuine bytes
+  | altered     -- same length, different bytes
+  | empty       -- no bytes at all
+deriving Repr, DecidableEq
+
+abbrev Tok := Nat × Kind   -- (piece index, kind)
 
 structure Chunk where
   seq : Nat
@@ -31,9 +40,18 @@ structure Chunk where
   term : Nat
   leader : Nat
   md : MetaK
-  sumOk : Bool
+  /-- length in bytes of the `chunk_checksum` field -/
+  sumLen : Nat
+  /-- the checksum bytes agree with CRC32(data) (for a field that is not 4 bytes long: its low-order bytes do / a
+      zero-extended one does) -/
+  sumMatch : Bool
   data : Tok
 deriving Repr, DecidableEq
+
+/-- `file_io::validate_checksum(data, expected)` = `crc32(data).to_be_bytes() == expected`: a comparison of a 4-byte
+    array with a slice — a checksum field of any other length never validates, whatever its bytes are (in particular an
+    empty checksum never validates an empty payload although CRC32("") = 0). -/
+def Chunk.sumOk (c : Chunk) : Bool := c.sumLen == 4 && c.sumMatch
 
 inductive End where
   | closed
@@ -156,7 +174,7 @@ def upsert (fs : List ((Nat × Nat) × Content)) (k : Nat × Nat) (v : Content) 
 
 /-- The assembled archive unpacks: its first `n` payloads are the pristine pieces 0..n−1. -/
 def archiveOk (n : Nat) (content : List Tok) : Bool :=
-  content.take n == (List.range n).map (fun i => (i, true))
+  (content.filter (·.2 ≠ .empty)).take n == (List.range n).map (fun i => (i, Kind.pristine))
 
 inductive Res where
   | ok
